@@ -16,6 +16,7 @@ the independent checker as oracle on the real images.
 -/
 import PyFatModel.Proofs.FatMachine
 import PyFatModel.Proofs.FatTable
+import PyFatModel.Proofs.FsRun
 
 open Model.Alloc Model.FatMachine Proofs.FatRep
 
@@ -78,6 +79,31 @@ theorem c04_flush_parse32 (es : List Nat) (h : ∀ e ∈ es, e < 268435456) :
 def demoFat : List Nat := [4088, 4095, 3, 4095, 0, 6, 4095, 0, 0, 0]
 example : (run (params 12) 10 ⟨demoFat, 2, [[2, 3], [5, 6]]⟩
     [.allocNew 1, .extend 0 1, .freeChain 1, .truncate 1 1]).chains = [[5], [4, 7]] := by decide
+
+/-! ## the filesystem level (`Model.Fs`): the FAT against the directory tree -/
+
+/-- **every reachable state of the filesystem model**: after any history of create / create(wipe) /
+    makedir / remove / removedir / write / truncate — failed calls included — the in-memory FAT
+    represents exactly the chains owned by the directory tree (each entry's, and the FAT32 root
+    directory's): well-formed, inside the data area, pairwise disjoint, everything else free or bad;
+    the tree is well-formed; every directory's entries fit its chain -/
+theorem c04_fs_reachable (v : Model.Fs.Vol) (count : Nat) (hv : Proofs.FsInv.VolOK v count) (s : Model.Fs.St)
+    (h : Proofs.FsInv.Inv v count s) (ops : List Model.Fs.Op) : Proofs.FsInv.Inv v count (Model.Fs.run v s ops) :=
+  Proofs.FsInv.run_inv hv ops s h
+
+/-- no cross-link: no cluster is in two owned chains (or twice in one) -/
+theorem c04_fs_no_crosslink (v : Model.Fs.Vol) (count : Nat) (s : Model.Fs.St) (h : Proofs.FsInv.Inv v count s) :
+    (Proofs.FsFat.own s.rootChain s.nodes).flatten.Nodup := Proofs.FsRun.no_crosslink h
+
+/-- no leak: a data cluster owned by nothing is free or marked bad -/
+theorem c04_fs_no_leak (v : Model.Fs.Vol) (count : Nat) (s : Model.Fs.St) (h : Proofs.FsInv.Inv v count s)
+    (c : Nat) (h2 : 2 ≤ c) (hc : c < count + 2) (hfree : c ∉ (Proofs.FsFat.own s.rootChain s.nodes).flatten) :
+    s.fat.getD c 0 = v.p.cv.free ∨ s.fat.getD c 0 = v.p.cv.bad := Proofs.FsRun.no_leak h c h2 hc hfree
+
+/-- the chain follower started at an entry's first cluster returns the entry's chain: acyclic, terminated -/
+theorem c04_fs_follow (v : Model.Fs.Vol) (count : Nat) (hv : Proofs.FsInv.VolOK v count) (s : Model.Fs.St)
+    (h : Proofs.FsInv.Inv v count s) (n : Model.Fs.Node) (hn : n ∈ s.nodes) (hc : n.chain ≠ []) :
+    chainOf v.p s.fat n.clus = .ok n.chain := Proofs.FsRun.follow_node hv h n hn hc
 
 /-- The full statement of C04 speaks about the device image after `close()`
     (directory tree → chains, sizes vs. chain lengths, all FAT copies).  It is
